@@ -731,6 +731,12 @@ func (e *specEnv) callSpec(n *ECall) Val {
 			return VBool{tAnd(tLt("0", r.T), tLe(r.T, ex.frontierOf(e.callPre)))}
 		}
 		return VBool{tAnd(tLt("0", r.T), tLe(r.T, ex.heapTop()))}
+	case "loads":
+		// loads(): how many atomic reads of shared variables this execution has performed
+		if c, ok := e.cur().ghost["atomic_loads"].(VInt); ok {
+			return c
+		}
+		e.fail("no atomic load counter in this state")
 	case "existing":
 		r := argv(0).(VRef)
 		return VBool{tAnd(tLt("0", r.T), tLe(r.T, ex.frontierOf(e.cur())))}
